@@ -101,9 +101,12 @@ impl Markers {
 }
 
 pub fn gen_args(t: &mut Tape, nparams: usize, assoc: bool, opts: &GenOpts, mk: &mut Markers) -> Vec<Arg> {
-    let n = t.weighted(&[15, 30, 30, 15, 10]);
+    // mostly 0..4 arguments, with a tail of wide handlers (9..13 arguments, mostly of one
+    // type so that position mix-ups stay type-correct)
+    let wide = t.chance(6);
+    let n = if wide { 9 + t.pick(5) } else { t.weighted(&[15, 30, 30, 15, 10]) };
     let mut args: Vec<Arg> = vec![];
-    let same_ty = n >= 2 && t.chance(35);
+    let same_ty = n >= 2 && (t.chance(35) || wide);
     for i in 0..n {
         let used: Vec<String> = args.iter().map(|a| a.name.clone()).collect();
         let name = arg_name(t, &used);
@@ -272,7 +275,8 @@ pub fn gen_msg_program(id: &str, tape: Vec<u32>, opts: &GenOpts) -> Program {
     inst.variant_attrs.clear();
     methods.push(inst);
     for kind in [Kind::Exec, Kind::Query, Kind::Sudo] {
-        let n = t.weighted(&[15, 35, 30, 20]);
+        // occasionally a long list of handlers of one kind (>= 10 variants)
+        let n = if t.chance(4) { 10 + t.pick(4) } else { t.weighted(&[15, 35, 30, 20]) };
         for _ in 0..n {
             methods.push(gen_handler(t, &mut reg, 0, kind, ngen, false, custom_err, opts, &mut mk));
         }
